@@ -36,13 +36,18 @@ type c14Backend struct {
 	mu    sync.Mutex
 	seen  map[string]int
 	calls int
+	delay time.Duration // latency of the directory (LDAP / Okta are network services)
 }
 
 func (b *c14Backend) PasswordAuthenticate(username string, password []byte) (bool, error) {
 	b.mu.Lock()
 	b.seen[username]++
 	b.calls++
+	d := b.delay
 	b.mu.Unlock()
+	if d > 0 {
+		time.Sleep(d)
+	}
 	return string(password) == "good-"+username, nil
 }
 
@@ -236,6 +241,7 @@ func c14Garbage(secret string, now time.Time) int {
 
 type c14TotpObs struct {
 	user    int
+	tm      int64 // time fed to the model: the stored clock reading if there is one, else t
 	t       int64
 	verdict int // 0 fresh 1 replay 2 nomatch
 	ok      bool
@@ -296,7 +302,7 @@ func TestVerif_C14(t *testing.T) {
 	// ------------------------------------------------------------ (B) limiter vs model
 	nSeq, seqLen := 400, 40
 	if thorough {
-		nSeq, seqLen = 20000, 60
+		nSeq, seqLen = 6000, 60
 	}
 	var finite []liveCfg
 	for _, l := range live {
@@ -514,6 +520,66 @@ Definition first_n_called (n : nat) (l : list (Z * Z * bool)) : bool := forallb 
 			res.hit(verifHit{Key: "C14:harness:concurrent-none", Oracle: "harness", What: "no concurrent attempt reached the backend", Case: "concurrent"})
 		}
 	}
+	// phase 3: guesses in flight at the same time against a slow directory (fresh limiter): the token
+	// must be taken before the backend is asked, not after it answered
+	{
+		const fBurst, fRate = 10, 1.0
+		fenv := verifSetup(t, func(c *AppConfigFile, dir string) {
+			c.Base.AllowedAuthBackendsForWebUI = []string{"password"}
+			c.Base.AllowedAuthBackendsForCerts = []string{"U2F"}
+			c.Base.PasswordAttemptGlobalBurstLimit = fBurst
+			c.Base.PasswordAttemptGlobalRateLimit = fRate
+		})
+		slow := &c14Backend{seen: map[string]int{}, delay: 250 * time.Millisecond}
+		fenv.state.passwordChecker = slow
+		n := 40
+		var wg sync.WaitGroup
+		statuses := make([]int, n)
+		start := time.Now()
+		for i := 0; i < n; i++ {
+			wg.Add(1)
+			go func(i int) {
+				defer wg.Done()
+				user := fmt.Sprintf("inflight%d", i)
+				var req *http.Request
+				if i%2 == 0 {
+					f := url.Values{}
+					f.Set("username", user)
+					f.Set("password", "bad")
+					req = verifNewRequest("POST", "/api/v0/login", f)
+				} else {
+					req = verifNewRequest("GET", profilePath, nil)
+					req.SetBasicAuth(user, "bad")
+				}
+				rr, _ := fenv.serve(req)
+				statuses[i] = rr.Code
+			}(i)
+		}
+		wg.Wait()
+		elapsed := time.Since(start)
+		slow.mu.Lock()
+		calls := slow.calls
+		slow.mu.Unlock()
+		n429 := 0
+		for _, s := range statuses {
+			if s == http.StatusTooManyRequests {
+				n429++
+			}
+		}
+		limit := float64(fBurst) + fRate*elapsed.Seconds() + 1
+		res.Extra["in_flight"] = map[string]interface{}{"attempts": n, "backend_calls": calls, "answered_429": n429, "elapsed_s": elapsed.Seconds(), "bound": limit}
+		res.eval(fmt.Sprintf("inflight|%d|%d", calls, n429), n429 > 0)
+		res.bump("handler:in-flight-burst")
+		if float64(calls) > limit {
+			res.hit(verifHit{Key: "C14:handler:too-many-backend-calls", Oracle: "backend calls <= burst + rate*elapsed + 1",
+				What: fmt.Sprintf("%d guesses in flight at once against a directory answering in 250 ms: %d reached it in %.3fs (burst %d, rate %v/s, bound %.2f), %d answered 429", n, calls, elapsed.Seconds(), fBurst, fRate, limit, n429),
+				Case: map[string]interface{}{"phase": "in-flight", "attempts": n, "backend_latency_ms": 250}})
+		}
+		if calls+n429 != n || calls < fBurst {
+			res.hit(verifHit{Key: "C14:handler:in-flight-accounting", Oracle: "every attempt is either answered 429 or reaches the backend once; a fresh bucket lets the burst through",
+				What: fmt.Sprintf("%d attempts: %d backend calls, %d answered 429", n, calls, n429), Case: map[string]interface{}{"phase": "in-flight"}})
+		}
+	}
 	// the whole handler run against the bound
 	{
 		first, lastT := seq[0].t0, time.Now().UnixNano()
@@ -619,7 +685,19 @@ Definition first_n_called (n : nat) (l : list (Z * Z * bool)) : bool := forallb 
 				t.Fatalf("validateUserTOTP: %v", err)
 			}
 			o := c14TotpObs{user: ui, t: virtual, verdict: verdict, ok: ok}
+			prevLc := int64(0)
+			for j := len(obs) - 1; j >= 0; j-- {
+				if obs[j].user == ui {
+					prevLc = obs[j].lc
+					break
+				}
+			}
 			o.lc, o.fc, o.lf, o.lo = tt.entry(user)
+			// the clock reading the code really used is visible whenever it stored it
+			o.tm = virtual
+			if o.lc != prevLc {
+				o.tm = o.lc
+			}
 			obs = append(obs, o)
 			res.bump(fmt.Sprintf("totp:verdict%d", verdict))
 			if ok {
@@ -639,12 +717,16 @@ Definition first_n_called (n : nat) (l : list (Z * Z * bool)) : bool := forallb 
 				}
 				passed := o.lc != prevLc
 				prevLc = o.lc
-				if passed {
-					if lastPass >= 0 && o.t-lastPass < 2e9-50e6 {
+				if passed && o.lc != 0 {
+					// o.lc is the clock reading the code stored when the attempt got past the spacing test
+					if lastPass >= 0 && o.lc-lastPass < 2e9-1e6 {
 						res.hit(verifHit{Key: "C14:totp:spacing", Oracle: "evaluated attempts of one user are at least 2 s apart",
-							What: fmt.Sprintf("two attempts of %s %d ms apart both got past the spacing test", users[ui], (o.t-lastPass)/1e6), Case: map[string]interface{}{"scenario": s}})
+							What: fmt.Sprintf("two attempts of %s %d ms apart both got past the spacing test", users[ui], (o.lc-lastPass)/1e6), Case: map[string]interface{}{"scenario": s}})
 					}
-					lastPass = o.t
+					lastPass = o.lc
+				}
+				if o.ok && o.t > lastPass {
+					lastPass = o.t // an accepted code was evaluated, at the earliest when the harness set the clock
 				}
 				if o.ok && o.t < lockedUntil-50e6 {
 					res.hit(verifHit{Key: "C14:totp:accepted-while-locked", Oracle: "verification is refused during the lock-out",
@@ -689,11 +771,20 @@ Definition first_n_called (n : nat) (l : list (Z * Z * bool)) : bool := forallb 
 	coq.WriteString("(* TOTP scenarios: (user, virtual time ns, verdict 0 fresh/1 replay/2 no match, accepted, lastCheck, failCount, lastFail, lockout) *)\n")
 	coq.WriteString("Definition totp_k : consts := {| min_secs := minSecsBetweenTOTPValidations; reset_hours := numHoursForLocalTOTPRateLimitReset; every := numFailedTOTPChecksForTimeoutIncrease |}.\n")
 	coq.WriteString("Definition verdict_of (z : Z) : verdict := if z =? 0 then Fresh else if z =? 1 then Replay else NoMatch.\n")
-	coq.WriteString(`Fixpoint totp_agree (m : users) (l : list (N * Z * Z * bool * (Z * Z * Z * Z))) (i : nat) : list nat :=
+	coq.WriteString(`(* one transition at a time: the model's attempt on the entry the implementation held before the
+   call must give the verdict and the entry observed after it.  lastCheckTime is the very clock
+   reading fed to the model; lastFailTime / lockoutExpirationTime are read from the clock later in
+   the same call (after the profile was saved), hence the one-sided latency allowance. *)
+Definition later (tol a b : Z) : bool := (a <=? b) && (b <=? a + tol).
+Definition rl_of (o : Z * Z * Z * Z) : rl := let '(lc, fc, lf, lo) := o in {| last_check := lc; fail_count := fc; last_fail := lf; lockout := lo |}.
+Definition entry_ok (m : rl) (o : Z * Z * Z * Z) : bool :=
+  let '(lc, fc, lf, lo) := o in
+  (last_check m =? lc) && (fail_count m =? fc) && later 5000000000 (last_fail m) lf && later 5000000000 (lockout m) lo.
+Fixpoint totp_agree (m : users) (l : list (N * Z * Z * bool * (Z * Z * Z * Z))) (i : nat) : list nat :=
   match l with [] => [] | (u, t, v, ok, obs) :: r =>
     let (s1, o) := attempt totp_k true (m u) t (verdict_of v) in
-    let good := Bool.eqb (accepted o) ok && rl_agrees 250000000 s1 obs in
-    (if good then [] else [i]) ++ totp_agree (upd m u s1) r (S i) end.
+    let good := Bool.eqb (accepted o) ok && entry_ok s1 obs in
+    (if good then [] else [i]) ++ totp_agree (upd m u (rl_of obs)) r (S i) end.
 `)
 	coq.WriteString("Definition totp_cases : list (list (N * Z * Z * bool * (Z * Z * Z * Z))) := [\n")
 	for si, obs := range scen {
@@ -702,7 +793,7 @@ Definition first_n_called (n : nat) (l : list (Z * Z * bool)) : bool := forallb 
 			if i > 0 {
 				coq.WriteString(";")
 			}
-			coq.WriteString(fmt.Sprintf("(%d%%N,%d,%d,%s,(%d,%d,%d,%d))", o.user, o.t, o.verdict, coqBool(o.ok), o.lc, o.fc, o.lf, o.lo))
+			coq.WriteString(fmt.Sprintf("(%d%%N,%d,%d,%s,(%d,%d,%d,%d))", o.user, o.tm, o.verdict, coqBool(o.ok), o.lc, o.fc, o.lf, o.lo))
 		}
 		coq.WriteString("]")
 		if si < len(scen)-1 {
